@@ -1,7 +1,7 @@
 """Which rules decide which property."""
 from __future__ import annotations
 
-from .rules import frag, c01, c02, c03, c11
+from .rules import frag, c01, c02, c03, c11, c18, c19
 
 ASSUME = [
     'stdlib ast and re._parser front ends are correct',
@@ -68,6 +68,34 @@ PROPERTIES = {
             ('C11-R3', c11.rule_limit_handover, 'quick'),
             ('C11-R4', c11.rule_budget_clamp, 'quick'),
             ('C11-R5', c11.rule_budget_continuity, 'quick'),
+        ],
+    },
+    'C18': {
+        'explanation': 'static analysis of /repo/wcmatch: latin-1 equality of every (str, bytes) twin constant, typing of '
+                       'every twin subscript against the enclosing isinstance test (CFG guards / reaching definitions), '
+                       'decode/encode pairing, dominance of the TypeError tests, literal twins inside functions',
+        'assumptions': ASSUME,
+        'rules': [
+            ('C18-R1', c18.rule_twin_constants, 'quick'),
+            ('C18-R2', c18.rule_twin_indexing, 'quick'),
+            ('C18-R3', c18.rule_latin1_pairing, 'quick'),
+            ('C18-R4', c01.rule_posix_tables, 'quick'),
+            ('C18-R5', c18.rule_type_checks, 'quick'),
+            ('C18-R6', c18.rule_literal_twins, 'quick'),
+        ],
+    },
+    'C19': {
+        'explanation': 'effect analysis of /repo/wcmatch: no function writes module-level state; cache-key completeness of the '
+                       'only memo (_compile) over the call-graph closure of what it reads; parser/walker objects are per call; '
+                       'immutability and eq/hash/pickle field agreement of the matcher objects',
+        'assumptions': ASSUME + ["CPython's functools.lru_cache and re are thread-safe",
+                                 'tests that mock util.platform change an ambient input that is deliberately not in the key'],
+        'rules': [
+            ('C19-R1', c19.rule_no_module_state, 'quick'),
+            ('C19-R2', c19.rule_cache_key, 'quick'),
+            ('C19-R3', c19.rule_per_call_objects, 'quick'),
+            ('C19-R4', c19.rule_immutability, 'quick'),
+            ('C19-R5', c19.rule_glob_instance_state, 'quick'),
         ],
     },
 }
